@@ -174,7 +174,7 @@ def gen_budget_struct(r, name, budget, enums, enum_w, structs, struct_w, fidx, f
     return mk_struct(name, fields), budget - left
 
 
-def gen_can_schema(r, prefix="C", max_bindings=6, flat=False, buses=True, big_endian=True, mux=True,
+def gen_can_schema(r, prefix="C", max_bindings=6, flat=False, buses=True, big_endian=True, mux=True, odd_buses=False,
                    devices=False, floats=True, enum_maxes=None, second_bindings=False, bitstart=False):
     """CAN schema with every bound struct <= 64 bits.  Returns decls."""
     from . import schema as S
@@ -212,6 +212,9 @@ def gen_can_schema(r, prefix="C", max_bindings=6, flat=False, buses=True, big_en
         ids[r.randrange(nb)] = 0  # frame id 0 is a valid (and falsy) id
     extra_ids = []
     bus_names = r.sample(["can0", "can1", "pt", "b", "x1"], r.randint(1, 3))
+    if odd_buses and r.random() < 0.3:
+        # bus names are strings: blanks and punctuation belong to them, and two names that differ only there are two buses
+        bus_names = list(r.choice([("body can", "body_can"), ("a:b", "a_b", "a b"), ("x*", "x?", "x_"), ("CAN 1", "CAN-1"), ("p|t", "p_t"), ("Bus<1>", "Bus_1_")]))
     # (device names with an underscore in front of a digit: ecu_2, bms_12v)
     dev_names = r.sample(["ecu", "bms", "inv", "dash", "ecu_2", "bms_12v", "front_ecu"], r.randint(1, 3))
     for i in range(nb):
